@@ -16,3 +16,11 @@ package stdlib_contracts
 //@ assumed
 //@ pure
 //@ ensures len(result) == 4 && string(result) == nb58.cksum(data) && fresh(result)
+
+//@ package encoding/hex
+//@ func EncodeToString
+//@ assumed
+//@ pure
+//@ func DecodeString
+//@ assumed
+//@ pure
